@@ -1027,6 +1027,7 @@ def rerun(prop, path):
         cmd = rec["driver"].split()
         logp = path + ".rerun.events.ndjson"
         cmd = [c if not c.endswith(".events.ndjson") else logp for c in cmd]
+        cmd[0] = core.binpath("drive", rec.get("profile", "dev"))      # always the binary built from the CURRENT tree
         r = subprocess.run(cmd, stdout=subprocess.PIPE, stderr=subprocess.PIPE, text=True)
         if r.returncode != 0:
             print("the driver process died again (rc=%s)" % r.returncode)
